@@ -2,6 +2,7 @@
 from __future__ import annotations
 
 import itertools
+import os
 import re
 from typing import Any, Dict, Iterator, List
 
@@ -15,7 +16,7 @@ RULE = ("every layout of 0..3 disjoint profiler steps with even endpoints in [0,
         "op | launch call with its kernel starting 1 or 3 later | kernel without launch call | event-synchronize "
         "call with its Event Sync record on stream -1 | host event whose name merely contains or starts with 'ProfilerStep' | "
         "zero-duration op | op on a second host thread) x include_last_profiler_step in {False,True} x file order "
-        "{as generated, reversed}; 2-rank slice with a skewed second rank. non-trivial = at least two steps and "
+        "{as generated, reversed}; 2-rank slice with a skewed second rank; history slice: the same directory path held a different trace (no steps | other names | one step) that was loaded earlier in the same process. non-trivial = at least two steps and "
         "at least one event on each side of the cut-off, or an event on a step boundary")
 ASSUMPTIONS = [
     "well-formed trace; all ranks carry the same step numbering",
@@ -85,6 +86,13 @@ def build(layout, us, skew=0, root_in_step=False) -> List[Dict[str, Any]]:
     return evs
 
 
+PRIORS = {
+    "no-steps": ([], [["named", 1, "prior_only_a"], ["named", 3, "prior_only_b"], ["launch", 5, 1]]),
+    "other-names": ([[0, 4], [4, 8]], [["named", 1, "prior_only_a"], ["named", 2, "prior_only_c"], ["op0", 4]]),
+    "one-step": ([[2, 6]], [["named", 1, "prior_only_b"], ["orphan", 3]]),
+}
+
+
 def worlds(tier: str, stats: Dict[str, Any]) -> Iterator[Any]:
     b = bounds(tier)
     L = layouts()
@@ -110,6 +118,12 @@ def worlds(tier: str, stats: Dict[str, Any]) -> Iterator[Any]:
                     yield dict(layout=lay, units=us, include_last=inc, ranks={"0": [evs[0]] + evs[1:][::-1]})
                     yield dict(layout=lay, units=us, include_last=inc,
                                ranks={"0": evs, "1": build(lay, us, skew=1)})
+                if len(us) == 1 and len(lay) >= 2 and us[0][0] in ("op", "launch"):
+                    # history: another trace was loaded earlier in this process from the very same directory path
+                    for pk, prior in PRIORS.items():
+                        stats["transitions"] += 1
+                        yield dict(layout=lay, units=us, include_last=inc, prior_kind=pk,
+                                   prior={"0": build(*prior)}, ranks={"0": evs})
 
 
 STEP_RE = re.compile(r"ProfilerStep\s*#\s*(\d+)")
@@ -162,12 +176,18 @@ def check(world) -> Dict[str, Any]:
     sc = htaenv.scratch()
     d = sc.fresh()
     try:
+        if world.get("prior"):
+            paths = kineto.write_world(d, {int(r): evs for r, evs in world["prior"].items()}, "json")
+            t0 = Trace(trace_dir=d)
+            t0.load_traces(include_last_profiler_step=inc, use_multiprocessing=False)
+            for p_ in paths.values():
+                os.remove(p_)
         kineto.write_world(d, ranks, "json")
         t = Trace(trace_dir=d)
         t.load_traces(include_last_profiler_step=inc, use_multiprocessing=False)
     finally:
         sc.drop(d)
-    tag = "incl-last" if inc else "excl-last"
+    tag = ("incl-last" if inc else "excl-last") + ("/after-prior-load-from-same-path" if world.get("prior") else "")
     for r, e in exp.items():
         df = t.get_trace(r)
         ids = [int(v) for v in df.index]
